@@ -19,7 +19,14 @@ pub struct OsIpcSharedMemory { pub ghost mid: int }
 #[derive(Debug)] pub struct IoError { pub _p: () }
 #[derive(Debug)] pub struct BincodeError { pub _p: () }
 pub mod io { pub type Error = super::IoError; }
-pub mod bincode { pub type Error = super::BincodeError; }
+pub mod bincode {
+    use vstd::prelude::*;
+    pub type Error = super::BincodeError;
+    // bincode::deserialize called directly: a decode that does NOT install the message's own attachment tables
+    // (only OpaqueIpcMessage::to does), so it is not a decode "through `to`": nothing is known about its value
+    #[verifier::external_body]
+    pub fn deserialize<T>(bytes: &[u8]) -> (r: Result<T, Error>) { unimplemented!() }
+}
 
 pub struct IpcOneShotServer<T> { pub os_server: OsIpcOneShotServer, pub phantom: PhantomData<T> }
 pub struct IpcReceiver<T> { pub os_receiver: OsIpcReceiver, pub phantom: PhantomData<T> }
